@@ -39,24 +39,25 @@ World(name) ==
          [params |-> {"CL", "VC"},
           ctype  |-> [WGT |-> "cont", APGR |-> "both", FA1 |-> "cat"],
           cov0   |-> {<<"CL", "WGT">>, <<"VC", "WGT">>, <<"VC", "APGR">>},
-          occ    |-> "FA1", allovar |-> "WGT", abs0 |-> "INST", noiiv |-> {}, ndv |-> 1]
-      \* pheno with a metabolite compartment (add_metabolite): two dependent variables Y (DVID 1) and Y_M (DVID 2),
-      \* each with its own proportional error model; only the error-model setters with a dv argument are explored on it
+          occ    |-> "FA1", allovar |-> "WGT", abs0 |-> "INST", noiiv |-> {}, ndv |-> 1, err0 |-> "prop"]
+      \* pheno with a metabolite compartment (add_metabolite): two dependent variables Y (DVID 1) and Y_M (DVID 2), both given
+      \* an additive error model by the driver (err0), so that two steps reach "proportional on 1, then proportional on 2";
+      \* only the error-model setters with a dv argument are explored on it
       [] name = "pheno2dv" ->
          [params |-> {"CL", "VC"},
           ctype  |-> [WGT |-> "cont", APGR |-> "both", FA1 |-> "cat"],
           cov0   |-> {<<"CL", "WGT">>, <<"VC", "WGT">>, <<"VC", "APGR">>},
-          occ    |-> "FA1", allovar |-> "WGT", abs0 |-> "INST", noiiv |-> {}, ndv |-> 2]
+          occ    |-> "FA1", allovar |-> "WGT", abs0 |-> "INST", noiiv |-> {}, ndv |-> 2, err0 |-> "add"]
       [] name = "phenoexp" ->
          [params |-> {"CL", "V"},
           ctype  |-> [WGT |-> "cont", APGR |-> "both", FA1 |-> "cat"],
           cov0   |-> {<<"CL", "WGT">>, <<"V", "WGT">>, <<"V", "APGR">>},
-          occ    |-> "FA1", allovar |-> "WGT", abs0 |-> "INST", noiiv |-> {"CL"}, ndv |-> 1]
+          occ    |-> "FA1", allovar |-> "WGT", abs0 |-> "INST", noiiv |-> {"CL"}, ndv |-> 1, err0 |-> "prop"]
       [] OTHER ->
          [params |-> {"CL", "VC", "MAT"},
           ctype  |-> [WT |-> "cont", AGE |-> "cont", SEX |-> "cat", CLCR |-> "cont"],
           cov0   |-> {},
-          occ    |-> "VISI", allovar |-> "WT", abs0 |-> "FO", noiiv |-> {}, ndv |-> 1]
+          occ    |-> "VISI", allovar |-> "WT", abs0 |-> "FO", noiiv |-> {}, ndv |-> 1, err0 |-> "prop"]
 CovsOf(w) == DOMAIN w.ctype
 EffectsFor(t) == CASE t = "cont" -> ContEffects [] t = "cat" -> CatEffects [] OTHER -> AllEffects
 AlloParams == {"CL", "VC", "V"}     \* clearance and volume parameters
@@ -71,8 +72,10 @@ Start(name) ==
      iov   |-> {},
      tr    |-> "none",
      allo  |-> FALSE,
-     err   |-> [kind |-> "prop", trans |-> "none"],      \* error model of the first (default) dependent variable
-     err2  |-> [kind |-> "prop", trans |-> "none"],      \* ... of the second one (worlds with ndv = 2)
+     err   |-> [kind |-> w.err0, trans |-> "none"],      \* error model of the first (default) dependent variable
+     err2  |-> [kind |-> w.err0, trans |-> "none"],      \* ... of the second one (worlds with ndv = 2)
+     elim  |-> "FO",                                     \* elimination: FO | MM | ZO | MIX
+     nodepot |-> FALSE,                                  \* the transit chain was put on a model without depot
      deco  |-> {},
      abs   |-> w.abs0,
      transits |-> 0]
@@ -100,7 +103,9 @@ ActAllometry == {A("allometry", "", W.allovar, "", "")}
 \* set_<x>_error_model(model, dv=c, data_trans=y): c = "" is the default (first) dependent variable; on a model with
 \* two dependent variables the dv argument "1" / "2" is part of the alphabet (additive / proportional, untransformed)
 ActSetErr == IF W.ndv = 1 THEN {A("seterr", "", "", k, t) : k \in ErrKinds, t \in {"none", "log"}}
-             ELSE {A("seterr", "", d, k, "none") : d \in {"1", "2"}, k \in {"add", "prop"}}
+             \* y = "nozp": set_proportional_error_model(..., zero_protection=False); "none" = the default (protection on)
+             ELSE {A("seterr", "", d, "add", "none") : d \in {"1", "2"}}
+                  \cup {A("seterr", "", d, "prop", z) : d \in {"1", "2"}, z \in {"none", "nozp"}}
 ActRmErr  == {A("rmerr", "", "", "", "")}
 ActDeco   == {A(d, "", "", "", "") : d \in {"power", "iivruv", "timevar", "weighted"}}
 ActAbs    == {A("abs", "", "", a, "") : a \in {"FO", "ZO", "SEQ", "INST"}}
@@ -108,9 +113,14 @@ ActTransit == {A("transit", "", "", n, "") : n \in {"0", "1", "3"}}
 \* write the model and read it back (model.code -> read_model_from_string): the function is C02's to keep; here it
 \* only puts a round trip between two setters, so that they meet the re-read form of the model (named rates K12 = n/MDT)
 ActReread == {A("reread", "", "", "", "")}
+\* set_michaelis_menten / zero_order / mixed_mm_fo_elimination: structural steps (C08's), here generators that change which
+\* parameters are clearances and volumes before add_allometry
+ActElim == {A("elim", "", "", e, "") : e \in {"MM", "ZO", "MIX"}}
 
 \* the mean absorption time exists as an individual parameter only while the model has an absorption phase
-HasParam(mm, p) == p = "" \/ p # "MAT" \/ mm.abs \in {"FO", "ZO", "SEQ"}
+\* ... and the clearance CL only while the elimination is (at least partly) first order
+HasParam(mm, p) == /\ (p = "MAT" => mm.abs \in {"FO", "ZO", "SEQ"})
+                   /\ (p = "CL" => mm.elim \in {"FO", "MIX"})
 Enabled(mm, a) ==
     LET w == World(mm.model) IN
     HasParam(mm, a.p) /\
@@ -123,7 +133,7 @@ Enabled(mm, a) ==
       [] a.k = "rmiov"   -> mm.iov # {}
       [] a.k = "transform" -> mm.tr = "none" /\ NIiv(mm, a.p) = 1 /\ mm.iov = {}
       [] a.k = "allometry" -> ~mm.allo
-      [] a.k = "seterr"  -> mm.deco = {} /\ (IF w.ndv = 1 THEN a.c = "" ELSE a.c \in {"1", "2"} /\ a.x \in {"add", "prop"} /\ a.y = "none")
+      [] a.k = "seterr"  -> mm.deco = {} /\ (IF w.ndv = 1 THEN a.c = "" ELSE a.c \in {"1", "2"} /\ a.x \in {"add", "prop"} /\ a.y \in {"none", "nozp"})
       [] a.k = "rmerr"   -> w.ndv = 1 /\ mm.deco = {} /\ mm.err.kind # "none"
       [] a.k = "power"   -> w.ndv = 1 /\ mm.deco = {} /\ mm.err.kind # "none" /\ mm.err.trans = "none"
       [] a.k = "iivruv"  -> w.ndv = 1 /\ mm.deco = {} /\ mm.err.kind # "none" /\ mm.err.trans = "none"
@@ -131,8 +141,11 @@ Enabled(mm, a) ==
       [] a.k = "weighted" -> w.ndv = 1 /\ mm.deco = {} /\ mm.err.kind \in {"add", "prop"} /\ mm.err.trans = "none"
       \* the documented "never run" combinations of C08 are not part of this property's alphabet
       \* (totality of setter sequences is C08's property; SEQ -> INST is its known finding C08-F4)
-      [] a.k = "abs"     -> mm.transits = 0 /\ ~(mm.abs = "SEQ" /\ a.x = "INST")
-      [] a.k = "transit" -> mm.abs \in {"FO", "INST"}
+      [] a.k = "abs"     -> mm.transits = 0 /\ ~(mm.abs = "SEQ" /\ a.x = "INST") /\ mm.elim = "FO"
+      \* (a single transit compartment without depot is reported as a depot by pharmpy itself; what the transit setter
+      \* does from there is C08's known finding C08-F6, and the state is this property's finding C09-F6)
+      [] a.k = "transit" -> mm.abs \in {"FO", "INST"} /\ mm.elim = "FO" /\ ~(mm.nodepot /\ mm.transits = 1)
+      [] a.k = "elim"    -> mm.elim = "FO" /\ mm.transits = 0 /\ w.ndv = 1
       [] a.k = "reread"  -> mm.tr = "none" /\ mm.iov = {} /\ mm.deco = {}
       [] OTHER -> FALSE
 
@@ -144,12 +157,20 @@ Noop(mm, a) ==
     \* (an IOV makes the parameter depend on the occasion column: add_covariate_effect then "already exists")
     CASE a.k = "addcov" -> <<a.p, a.c>> \in mm.cov \/ (a.p \in mm.iov /\ a.c = World(mm.model).occ)
       \* the dependent variable asked for already has this error model (what the OTHER dependent variable has is irrelevant)
-      [] a.k = "seterr" -> (IF a.c = "2" THEN mm.err2 ELSE mm.err) = [kind |-> a.x, trans |-> a.y]
-      [] a.k = "allometry" -> AlloTargets(mm, a) = {}
+      [] a.k = "seterr" -> LET cur == IF a.c = "2" THEN mm.err2 ELSE mm.err
+                           IN cur.kind = a.x /\ (cur.trans = a.y \/ {cur.trans, a.y} \subseteq {"none", "nozp"})
+      \* (after a Michaelis-Menten / zero-order / mixed elimination setter there is a new clearance-like parameter CLMM
+      \* without any covariate effect: allometry then always has something to scale)
+      [] a.k = "allometry" -> AlloTargets(mm, a) = {} /\ mm.elim = "FO"
       [] a.k = "abs"    -> mm.abs = a.x
       [] a.k = "transit" -> mm.transits = (CASE a.x = "0" -> 0 [] a.x = "1" -> 1 [] OTHER -> 3)
       [] OTHER -> FALSE
 
+\* "Default is to automatically use clearance and volume parameters": whatever the elimination model, the central volume
+\* is a volume parameter and is scaled unless it already depends on the variable (the clearance-like parameters change
+\* their names with the elimination model: CL, CLMM - the driver reports which parameters got an exponent)
+VolumeParams == {"VC", "V"}
+AlloVolumeTargets(mm, a) == {p \in AlloTargets(mm, a) : p \in VolumeParams}
 DropExt(s, keep(_)) == SelectSeq(s, keep)
 Apply(mm, a) ==
     IF Noop(mm, a) THEN mm
@@ -173,6 +194,10 @@ Apply(mm, a) ==
                                 ELSE [mm EXCEPT !.err = [kind |-> a.x, trans |-> a.y]]
            [] a.k = "rmerr"  -> [mm EXCEPT !.err = [kind |-> "none", trans |-> "none"]]
            [] a.k \in {"power", "iivruv", "timevar", "weighted"} -> [mm EXCEPT !.deco = @ \cup {a.k}]
+           [] a.k = "elim" ->
+                IF a.x = "MIX" THEN [mm EXCEPT !.elim = a.x]
+                ELSE \* CL is replaced by CLMM / KM: its extensions go with it
+                     [mm EXCEPT !.elim = a.x, !.ext["CL"] = <<>>, !.iov = @ \ {"CL"}, !.cov = {pc \in @ : pc[1] # "CL"}]
            [] a.k = "abs" ->
                 IF a.x = "INST" /\ "MAT" \in DOMAIN mm.ext
                 THEN \* the absorption parameter disappears with the depot; a later absorption setter creates a plain one
@@ -180,9 +205,11 @@ Apply(mm, a) ==
                                 !.cov = {pc \in @ : pc[1] # "MAT"}]
                 ELSE [mm EXCEPT !.abs = a.x]
            [] a.k = "transit" ->
-                [mm EXCEPT !.transits = (CASE a.x = "0" -> 0 [] a.x = "1" -> 1 [] OTHER -> 3),
-                           \* set_transit_compartments(n > 0) on an instantaneous-absorption model creates the depot
-                           !.abs = IF a.x # "0" /\ @ = "INST" THEN "FO" ELSE @]
+                LET n == (CASE a.x = "0" -> 0 [] a.x = "1" -> 1 [] OTHER -> 3)
+                    nd == IF n = 0 THEN FALSE ELSE (mm.nodepot \/ mm.abs = "INST")
+                IN [mm EXCEPT !.transits = n, !.nodepot = nd,
+                              \* without depot the chain replaces the instantaneous absorption and n = 0 brings it back
+                              !.abs = IF n > 0 /\ @ = "INST" THEN "FO" ELSE IF n = 0 /\ mm.nodepot THEN "INST" ELSE @]
            [] OTHER -> mm
 
 \* `a` removes exactly what the previous action `b` (taken in state mb, not as a no-op) added
@@ -212,9 +239,10 @@ DoDecorateErr == "err" \in Groups /\ \E a \in ActDeco : Step(a)
 DoSetAbsorption == "abs" \in Groups /\ \E a \in ActAbs : Step(a)
 DoSetTransits == "abs" \in Groups /\ \E a \in ActTransit : Step(a)
 DoReread == "abs" \in Groups /\ \E a \in ActReread : Step(a)
+DoSetElimination == "abs" \in Groups /\ \E a \in ActElim : Step(a)
 
 Next == \/ DoAddCov \/ DoRemoveCov \/ DoAllometry \/ DoAddIIV \/ DoRemoveIIV \/ DoAddIOV \/ DoRemoveIOV
-        \/ DoTransform \/ DoSetErr \/ DoRemoveErr \/ DoDecorateErr \/ DoSetAbsorption \/ DoSetTransits \/ DoReread
+        \/ DoTransform \/ DoSetErr \/ DoRemoveErr \/ DoDecorateErr \/ DoSetAbsorption \/ DoSetTransits \/ DoReread \/ DoSetElimination
 Spec == Init /\ [][Next]_vars
 
 \* ---------------------------------------------------------------- abstract semantics
